@@ -1,5 +1,5 @@
 (* C09 — proofs about Model/Ports.v (ports.Manager). *)
-From Coq Require Import Lia.
+From Coq Require Import Lia ZifyBool ZifyNat.
 From FRP Require Import Model.Ports.
 Open Scope Z_scope.
 
@@ -184,7 +184,7 @@ Proof.
   intros A probe ch s n port s' r HI H. unfold pm_acquire in H.
   destruct (port =? 0).
   - destruct (rget n (pm_res s)) as [rp|] eqn:ER.
-    + destruct (probe rp).
+    + destruct (zmem rp (pm_free s) && probe rp).
       * inversion H; subst. apply pinv_take; [assumption|]. eapply pi_res; eauto.
       * eapply pinv_random; eauto.
     + eapply pinv_random; eauto.
@@ -225,26 +225,54 @@ Proof.
   intros p [H1 H2]. apply H2. auto.
 Qed.
 
+(* ---------- NewManager keeps only bindable ports ---------- *)
+Lemma zrange_In : forall n st p, In p (zrange st n) <-> st <= p < st + Z.of_nat n.
+Proof.
+  induction n as [|k IH]; intros st p; simpl zrange.
+  - simpl. lia.
+  - simpl In. rewrite IH. lia.
+Qed.
+
+Lemma pr_expand_valid : forall r p, In p (pr_expand r) -> 1 <= p <= 65535.
+Proof.
+  intros [[st en] si] p H. unfold pr_expand, pm_min_port, pm_max_port in H.
+  destruct (0 <? si) eqn:E1.
+  - destruct (si <=? 65535) eqn:E2; [|destruct H]. destruct H as [<-|[]]. lia.
+  - apply zrange_In in H. lia.
+Qed.
+
+Theorem allowed_valid : forall ranges p, In p (pm_allowed ranges) -> 1 <= p <= 65535.
+Proof.
+  intros ranges p H. unfold pm_allowed in H. destruct ranges as [|r0 rs].
+  - apply zrange_In in H. unfold pm_min_port, pm_max_port in H. lia.
+  - apply in_flat_map in H. destruct H as [r [_ H]]. eapply pr_expand_valid; eauto.
+Qed.
+
+Lemma allowed_no0 : forall ranges, ~ In 0 (pm_allowed ranges).
+Proof. intros ranges H. apply allowed_valid in H. lia. Qed.
+
+Lemma pinv_no0 : forall A s, PInv A s -> ~ In 0 A -> ~ In 0 (pm_free s).
+Proof. intros A s HI H0 H. apply H0. eapply pinv_free_allowed; eauto. Qed.
+
 (* ---------- acquire: soundness ---------- *)
-(* what a successful Acquire guarantees.  [Hbound] is the OS fact "a port recorded as used is
-   really bound, so the probe fails on it"; the layered model (Model/PortSrv.v) derives it.  Without it
-   the reserved-port path can hand out a used port: see acquire_exclusive_any_probe_refuted. *)
+(* what a successful Acquire guarantees, for EVERY value of the OS-probe and random-choice oracles:
+   every granting branch (reserved, random, specified) takes the port out of the free table, so the
+   partition invariant alone makes the port owner-less. *)
 Theorem acquire_sound : forall A probe ch s n port s' p,
   PInv A s ->
-  (forall q, used_by s q -> probe q = false) ->
   pm_acquire probe ch s n port = Some (s', POk p) ->
   In p A /\ In p (pm_free s) /\ ~ used_by s p /\ probe p = true /\
   (port <> 0 -> p = port) /\
   s' = pm_take s n p /\ uget p (pm_used s') = Some n /\ ~ In p (pm_free s') /\ rget n (pm_res s') = Some p.
 Proof.
-  intros A probe ch s n port s' p HI Hb H.
-  assert (G : forall k, In k A -> probe k = true -> s' = pm_take s n k -> p = k ->
+  intros A probe ch s n port s' p HI H.
+  assert (G : forall k, In k (pm_free s) -> probe k = true -> s' = pm_take s n k -> p = k ->
               In p A /\ In p (pm_free s) /\ ~ used_by s p /\ probe p = true /\
               s' = pm_take s n p /\ uget p (pm_used s') = Some n /\ ~ In p (pm_free s') /\ rget n (pm_res s') = Some p).
-  { intros k HA Hp -> ->.
-    assert (Hnu : ~ used_by s k) by (intros U; apply Hb in U; congruence).
-    assert (Hf : In k (pm_free s)) by (apply (pi_cover _ _ HI) in HA; tauto).
+  { intros k Hf Hp -> ->.
+    assert (Hnu : ~ used_by s k) by (intros U; apply U; apply (pi_disj _ _ HI); assumption).
     repeat split; try assumption; psimpl.
+    - eapply pinv_free_allowed; eauto.
     - apply uget_uset_eq.
     - rewrite zrem_In. tauto.
     - apply rget_rset_eq. }
@@ -256,32 +284,47 @@ Proof.
       - destruct (zmem k (pm_free s) && probe k) eqn:E; [|discriminate].
         apply andb_prop in E. destruct E as [E1 E2]. apply zmem_In in E1.
         destruct (k =? 0); intros X; inversion X; subst.
-        pose proof (G p (pinv_free_allowed _ _ _ HI E1) E2 eq_refl eq_refl). intuition.
+        pose proof (G p E1 E2 eq_refl eq_refl). intuition.
       - destruct (pm_noavail_legal probe (pm_free s)); discriminate. }
     destruct (rget n (pm_res s)) as [rp|] eqn:ER; [|auto].
-    destruct (probe rp) eqn:EP; [|auto].
+    destruct (zmem rp (pm_free s) && probe rp) eqn:EP; [|auto].
+    apply andb_prop in EP. destruct EP as [EP1 EP2]. apply zmem_In in EP1.
     inversion H; subst.
-    pose proof (G p (pi_res _ _ HI _ _ ER) EP eq_refl eq_refl). intuition.
+    pose proof (G p EP1 EP2 eq_refl eq_refl). intuition.
   - destruct (zmem port (pm_free s)) eqn:EM.
     + apply zmem_In in EM. destruct (probe port) eqn:EP; inversion H; subst.
-      pose proof (G p (pinv_free_allowed _ _ _ HI EM) EP eq_refl eq_refl). intuition.
+      pose proof (G p EM EP eq_refl eq_refl). intuition.
     + destruct (uget port (pm_used s)); discriminate.
 Qed.
 
-(* the hypothesis about the probe cannot be dropped: a reachable state and a probe on which the
-   reserved path returns a port that another name owns (and takes it over) *)
+(* exclusivity over whole histories, every oracle: a granted port had no owner, every other owner keeps
+   its port *)
+Theorem acquire_exclusive : forall ranges ops s probe ch n port s' p,
+  pm_run ops (pm_new ranges) = Some s ->
+  pm_acquire probe ch s n port = Some (s', POk p) ->
+  uget p (pm_used s) = None /\ (forall q, q <> p -> uget q (pm_used s') = uget q (pm_used s)).
+Proof.
+  intros ranges ops s probe ch n port s' p HR H.
+  pose proof (pinv_run _ _ _ _ (pinv_new ranges) HR) as HI.
+  destruct (acquire_sound _ _ _ _ _ _ _ _ HI H) as (_ & _ & NU & _ & _ & -> & _).
+  split.
+  - unfold used_by in NU. destruct (uget p (pm_used s)); [exfalso; apply NU; discriminate|reflexivity].
+  - intros q Nq. psimpl. apply uget_uset_neq. assumption.
+Qed.
+
+(* the former witness of the reserved-path defect, now a regression case: "a" is NOT given b's port *)
 Definition steal_ops : list pop :=
   [PAcq "a"%string 0 (fun _ => true) (Some 10); PRel 10; PAcq "b"%string 10 (fun _ => true) None].
 
-Theorem acquire_exclusive_any_probe_refuted :
+Theorem reserved_path_no_steal :
   exists s s', pm_run steal_ops (pm_new [(10, 12, 0)]) = Some s /\
     uget 10 (pm_used s) = Some "b"%string /\
-    pm_acquire (fun _ => true) None s "a"%string 0 = Some (s', POk 10) /\
-    uget 10 (pm_used s') = Some "a"%string.
+    pm_acquire (fun _ => true) (Some 11) s "a"%string 0 = Some (s', POk 11) /\
+    uget 10 (pm_used s') = Some "b"%string.
 Proof. eexists. eexists. vm_compute. repeat split. Qed.
 
 (* ---------- acquire: an error leaves the manager unchanged ---------- *)
-Theorem acquire_error_unchanged : forall probe ch s n port s' e,
+Lemma acquire_error_unchanged_no0 : forall probe ch s n port s' e,
   ~ In 0 (pm_free s) ->
   pm_acquire probe ch s n port = Some (s', PErr e) -> s' = s.
 Proof.
@@ -293,21 +336,28 @@ Proof.
       destruct (Z.eqb_spec k 0) as [->|]; [contradiction|discriminate].
     - destruct (pm_noavail_legal probe (pm_free s)); intros X; inversion X; reflexivity. }
   destruct (port =? 0).
-  - destruct (rget n (pm_res s)); [|auto]. destruct (probe z); [discriminate|auto].
+  - destruct (rget n (pm_res s)); [|auto]. destruct (zmem z (pm_free s) && probe z); [discriminate|auto].
   - destruct (zmem port (pm_free s)).
     + destruct (probe port); inversion H; reflexivity.
     + destruct (uget port (pm_used s)); inversion H; reflexivity.
 Qed.
 
-(* ... and needs "0 is not an allowed port": with allowPorts 0-2 the random path can pick 0, record
-   it as used and then report ErrNoAvailablePort *)
-Theorem acquire_error_unchanged_port0_refuted :
-  exists s', pm_acquire (probe_of []) (Some 0) (pm_new [(0, 2, 0)]) "a"%string 0 = Some (s', PErr ENoAvail) /\
-             uget 0 (pm_used s') = Some "a"%string /\ ~ In 0 (pm_free s').
-Proof. eexists. vm_compute. repeat split. intros [H|[H|H]]; [discriminate|discriminate|exact H]. Qed.
+(* for EVERY allowPorts configuration: NewManager never admits port 0, so the `realPort == 0` test after
+   the random loop can only mean "nothing was taken" *)
+Theorem acquire_error_unchanged : forall ranges ops s probe ch n port s' e,
+  pm_run ops (pm_new ranges) = Some s ->
+  pm_acquire probe ch s n port = Some (s', PErr e) -> s' = s.
+Proof.
+  intros ranges ops s probe ch n port s' e HR H.
+  pose proof (pinv_run _ _ _ _ (pinv_new ranges) HR) as HI.
+  eapply acquire_error_unchanged_no0; [|eassumption].
+  eapply pinv_no0; [eassumption|apply allowed_no0].
+Qed.
 
-Lemma pinv_no0 : forall A s, PInv A s -> ~ In 0 A -> ~ In 0 (pm_free s).
-Proof. intros A s HI H0 H. apply H0. eapply pinv_free_allowed; eauto. Qed.
+(* the former port-0 witness: allowPorts 0-2 now yields the free table {1,2} *)
+Theorem port0_never_free :
+  pm_free (pm_new [(0, 2, 0)]) = [1; 2] /\ pm_free (pm_new [(0, 0, 0); (0, 0, 70000); (65534, 70000, 0); (-5, 1, 0)]) = [65534; 65535; 1].
+Proof. split; reflexivity. Qed.
 
 (* ---------- refusals ---------- *)
 Theorem out_of_range_refused : forall A probe ch s n port,
@@ -340,13 +390,6 @@ Proof.
   intros probe ch s n port N0 F P. unfold pm_acquire.
   destruct (Z.eqb_spec port 0); [contradiction|].
   apply zmem_In in F. rewrite F, P. reflexivity.
-Qed.
-
-Lemma zrange_In : forall n st p, In p (zrange st n) <-> st <= p < st + Z.of_nat n.
-Proof.
-  induction n as [|k IH]; intros st p; simpl zrange.
-  - simpl. lia.
-  - simpl In. rewrite IH. lia.
 Qed.
 
 Lemma default_allowed : forall p, In p (pm_allowed []) <-> 1 <= p <= 65535.
@@ -386,9 +429,11 @@ Proof. intros s p H. unfold pm_release. rewrite H. reflexivity. Qed.
 
 (* ---------- same port back ---------- *)
 Theorem reacquire_same_port : forall probe ch s n rp,
-  rget n (pm_res s) = Some rp -> probe rp = true ->
+  rget n (pm_res s) = Some rp -> In rp (pm_free s) -> probe rp = true ->
   pm_acquire probe ch s n 0 = Some (pm_take s n rp, POk rp).
-Proof. intros probe ch s n rp R P. unfold pm_acquire. simpl. rewrite R, P. reflexivity. Qed.
+Proof.
+  intros probe ch s n rp R F P. unfold pm_acquire. simpl. apply zmem_In in F. rewrite R, F, P. reflexivity.
+Qed.
 
 (* the memory survives everything except the cleaner and a later acquisition under the same name *)
 Definition touches_name (n : pname) (o : pop) : bool :=
@@ -426,18 +471,17 @@ Proof.
 Qed.
 
 (* history form: a name that was given p by the server, closes, and asks for "any port" again after
-   arbitrary activity of other names gets p back whenever the OS still lets p be bound *)
+   arbitrary activity of other names gets p back whenever p is still free and the OS lets it be bound *)
 Theorem same_port_back : forall A probe0 ch0 s0 n port0 s1 p ops s2 probe ch,
   PInv A s0 ->
   pm_acquire probe0 ch0 s0 n port0 = Some (s1, POk p) ->
-  (forall q, used_by s0 q -> probe0 q = false) ->
   pm_run ops s1 = Some s2 -> forallb (fun o => negb (touches_name n o)) ops = true ->
-  probe p = true ->
+  In p (pm_free s2) -> probe p = true ->
   pm_acquire probe ch s2 n 0 = Some (pm_take s2 n p, POk p).
 Proof.
-  intros A probe0 ch0 s0 n port0 s1 p ops s2 probe ch HI HA Hb HR HT HP.
-  destruct (acquire_sound _ _ _ _ _ _ _ _ HI Hb HA) as (_ & _ & _ & _ & _ & _ & _ & _ & R1).
-  apply reacquire_same_port; [|assumption].
+  intros A probe0 ch0 s0 n port0 s1 p ops s2 probe ch HI HA HR HT HF HP.
+  destruct (acquire_sound _ _ _ _ _ _ _ _ HI HA) as (_ & _ & _ & _ & _ & _ & _ & _ & R1).
+  apply reacquire_same_port; [|assumption|assumption].
   rewrite (reserved_persists _ _ _ _ HR HT). assumption.
 Qed.
 
